@@ -134,6 +134,13 @@ def base_programs(tier):
         'def total := 0\nfor item in [1, 2, 3] do\n    total += item\nprint("sum {total}")\n',
         'class Counter(def count: Int)\n    def bump(self, by: Int := 1) =>\n        self.count := self.count + by\ndef cnt := Counter(0)\ncnt.bump()\ncnt.bump(2)\nprint(cnt.count)\n',
     ]
+    extra += [
+        # `with` consumes its resource; names defined more than once live under shadowing offsets
+        'def show(x: Int) => print("v {x}")\ndef res := 10\nwith res as other do\n    show(other)\nwith res as again: Int do\n    show(again)\nwith res do\n    show(res)\n',
+        'def scale(n: Int, num: Int) -> Int => n * num\ndef report(n: Int, num: Int) =>\n    with n as m: Int do\n        print(m + num)\nreport(2, 3)\nprint(scale(2, 3))\n',
+        'def count: Int := 1\ndef count: Int := 2\ndef c: Int := 10\nwith c as d: Int do\n    print(count + d)\n',
+        'def val: Int := 1\ndef c := True\nif c then\n    def val: Int := 2\n    print(val)\ndef v: Int := val + 1\nprint(v)\nfor va in 0 .. 2 do\n    print(va + val)\n',
+    ]
     for case in progs:
         yield case["id"], to_mamba(case["prog"])
     for i, src in enumerate(extra):
@@ -146,13 +153,14 @@ def cases(tier, seed):
         ids, _ = identifiers(src)
         for u in ids:
             n += 1
-            yield {"id": "c15-%d" % n, "family": "c15." + bid[0], "src": src, "only": u, "pairs": False, "tags": ["base:" + bid, "id:" + u]}
+            yield {"id": "c15-%d" % n, "family": "c15." + bid[0], "src": src, "only": u, "pairs": False, "tags": ["base:" + bid, "id:" + u],
+                   "derived": tier != "quick" or bid.startswith("X")}
         if tier != "quick":
             n += 1
             yield {"id": "c15-%d" % n, "family": "c15." + bid[0], "src": src, "only": None, "pairs": True, "tags": ["base:" + bid, "pairs"]}
 
 
-def renamings(src, pairs):
+def renamings(src, pairs, derived=True):
     ids, classes = identifiers(src)
     used = set(ids) | RESERVED
     single = []
@@ -160,6 +168,19 @@ def renamings(src, pairs):
         pool = UPPER_POOL if u in classes else LOWER_POOL
         for p in pool:
             if p not in used:
+                single.append({u: p})
+    # names RELATED to another identifier of the same program: a proper prefix of it, it with a suffix, it doubled, it minus its
+    # last character - an injective renaming may create (or destroy) such relations, the output may not depend on them
+    for u in (ids if derived else []):
+        derived = []
+        for w in ids:
+            if w == u or (w in classes) != (u in classes):
+                continue
+            derived += [w[:1], w[:2], w[:-1], w + "1", w + "_", w + w, w + "s"]
+        seen = set()
+        for p in derived:
+            if p and p not in used and p not in seen and re.fullmatch(r"[A-Za-z_][A-Za-z0-9_]*", p) and p != "_":
+                seen.add(p)
                 single.append({u: p})
     for m in single:
         yield m
@@ -183,7 +204,7 @@ def evaluate(case, drv):
     if case.get("single"):
         todo = [case["mapping"]]
     else:
-        todo = [m for m in renamings(case["src"], case.get("pairs")) if (case.get("only") is None and len(m) == 2) or (case.get("only") is not None and list(m) == [case["only"]])]
+        todo = [m for m in renamings(case["src"], case.get("pairs"), case.get("derived", True)) if (case.get("only") is None and len(m) == 2) or (case.get("only") is not None and list(m) == [case["only"]])]
     for mapping in todo:
         rsrc = rename_src(case["src"], mapping)
         desc = ",".join("%s->%s" % kv for kv in mapping.items())
